@@ -2007,8 +2007,8 @@ class Stream(AbstractStream):
         new._thermo = self._thermo
         new._imol = self._imol
         new._thermal_condition = self._thermal_condition
-        new._property_cache = self._property_cache
-        new._property_cache_key = self._property_cache_key
+        new._property_cache = {} # The cache key is per object, so the cache cannot be shared
+        new._property_cache_key = None, None
         new.equations = self.equations
         new.characterization_factors = self.characterization_factors
         for i in ('_streams', '_vle_cache', '_lle_cache', '_sle_cache'): # Multi-phase streams
